@@ -148,7 +148,7 @@ def _stopping_instances(tier):
     for p, q in grid:
         inst.append(("fig55", [p, q]))
     inst.append(("fig55", [0.5, 0.75, [1, 2, 3, 4]]))
-    letters2 = "DCABFET"
+    letters2 = "DCABFETU"
     for kind in (P1, PR):
         for sk in itertools.product(letters2, repeat=2):
             inst.append(("dead", [kind, list(sk)]))
